@@ -452,7 +452,7 @@ PROPS["C04"] = dict(
     level="proof",
     units=[dict(template="units/planrun.rs", slice=["*"]),
            dict(template="units/plan.rs", slice=["build_plan", "needs_transfer", "is_excluded", "glob_match"]),
-           dict(template="units/oneway.rs", slice=["deliver_local", "deliver_pull", "tmp_path", "create_local_dirs"]),
+           dict(template="units/oneway.rs", slice=["deliver_local", "deliver_pull", "tmp_path", "create_local_dirs", "set_local_mtime"]),
            dict(template="units/runsync.rs", slice=["run_local", "run_remote"], ignore_clauses=_RS_C04)],
     kani=[dict(harness="c19_needs_transfer_is_quick_check", repo_fn="src/bin/copia/plan.rs needs_transfer", desc="needs_transfer(src, dst) == (dst absent or size differs or whole-second mtime differs), all inputs")],
     twins=[dict(name="delivers_plan", repo_fn="src/bin/copia/incremental.rs run_local/run_remote (whole run)", quick=1, thorough=1, needs_cli=True,
@@ -528,3 +528,9 @@ for f in ("sync_files",):
 # C18: the glue that feeds reconcile (tree scans) must hand it content fingerprints - exercised by the bisync histories
 PROPS["C18"]["twins"] = PROPS["C18"].get("twins", []) + [dict(BISYNC_TWIN, only_re=r"\(C18\)")]
 PROPS["C18"].setdefault("not_decided", []).append("that the tree scans in front of reconcile (discover_local_fingerprints) report content fingerprints, independent of size and mtime, is by contract in unit bisync; on the real binary it is exercised by the history twin (two histories with equal sizes and equal old mtimes)")
+
+
+# ---- round 5: the tree-level reconcile (sorted, duplicate-free union of paths) is a callee the bisync properties depend on ----
+for _p in ("C02", "C06"):
+    PROPS[_p]["units"].append(dict(template="units/reconcile.rs", slice=["reconcile"]))
+    PROPS[_p]["clauses"]["reconcile (tree level)"] = "exactly one non-trivial table decision per path of the union of the three listings, in path order: no path twice (a BothChanged conflict applied twice overwrites the preserved loser), none dropped (proved in unit reconcile; shared with C18)"
